@@ -13,7 +13,8 @@ RULE = ('(exact) full product: every composition with 1..A atoms over {C,H,N,O,S
         'multinomial expansion; (identities) compositions on the count grid {1,2,7,30,200} with <=2 elements of '
         '{C,H,N,O,S,P,Se,Cl,Br,Fe} plus fractional counts, particle entries (e,p,n) and labelled elements (13C, D) x '
         'options (max_isotopes, min_abundance_threshold, distribution_resolution 0..6, use_neutron_count x '
-        'output_masses_for_neutron_offset, distribution_abundance, is_abundance_sum) at deviation <=2; non-trivial = at '
+        'output_masses_for_neutron_offset, distribution_abundance, is_abundance_sum) at deviation <=2; the averagine '
+        'wrapper on 3 masses x the same option space; non-trivial = at '
         'least two atoms or one option set')
 ASSUMPTIONS = ['isotope masses/abundances: frozen NIST table; exact peaks are assigned to the nearest library peak within '
                'k*0.5*10^-r + 1e-6 (r = resolution, k = number of convolved elements)',
@@ -50,6 +51,9 @@ OPTS = {
 }
 
 
+EST_MASSES = [50.0, 800.0, 4321.5]
+
+
 def identity_comps():
     # the library enumerates every isotopologue of an element before merging: counts are capped per element so that a
     # single call stays below ~1 s (Se/Fe: 6/4 isotopes)
@@ -80,6 +84,7 @@ def shards(tier):
     comps = identity_comps()
     out += [{'kind': 'ident', 'lo': i, 'hi': min(len(comps), i + 6)} for i in range(0, len(comps), 6)]
     out.append({'kind': 'merge'})
+    out += [{'kind': 'estimate', 'mass': m} for m in EST_MASSES]
     return out
 
 
@@ -98,6 +103,12 @@ def gen(shard, tier):
                 for sub in itertools.combinations(names, k):
                     for vals in itertools.product(*[OPTS[a] for a in sub]):
                         yield {'kind': 'ident', 'comp': comp, 'opts': dict(zip(sub, vals))}, k, True
+    elif shard['kind'] == 'estimate':
+        names = list(OPTS)
+        for k in (0, 1, 2):
+            for sub in itertools.combinations(names, k):
+                for vals in itertools.product(*[OPTS[a] for a in sub]):
+                    yield {'kind': 'estimate', 'mass': shard['mass'], 'opts': dict(zip(sub, vals))}, k, True
     else:
         yield {'kind': 'merge'}, 1, True
 
@@ -209,6 +220,28 @@ def check(case, ctx):
                 ctx.fail('merge', sorted(exp.items())[:5], m[:5] if st == 'ok' else m, comps=list(comps))
         ctx.outcome = 'merge'
         return
+    if case['kind'] == 'estimate':
+        # the averagine wrapper: same options, same normalisation, same pattern as the pattern of its own composition
+        opts = case['opts']
+        call = ['estimate_isotopic_distribution', case['mass'], opts]
+        st, dist = lib.call(p.estimate_isotopic_distribution, case['mass'], **opts)
+        st2, ec = lib.call(p.estimate_comp, case['mass'])
+        ctx.evals += 2
+        if st != 'ok' or st2 != 'ok' or not dist:
+            ctx.fail('raises', 'distribution', [dist, ec], call=call)
+            return
+        st3, ref = lib.call(p.isotopic_distribution, dict(ec), **opts)
+        if st3 != 'ok' or [tuple(x) for x in ref] != [tuple(x) for x in dist]:
+            ctx.fail('estimate-vs-own-composition', ref[:4] if st3 == 'ok' else ref, dist[:4], call=call)
+        masses = [m for m, _ in dist]
+        if masses != sorted(masses):
+            ctx.fail('not-sorted', sorted(masses), masses, call=call)
+        want = opts.get('distribution_abundance', 1.0)
+        got = sum(a for _, a in dist) if opts.get('is_abundance_sum') else max(a for _, a in dist)
+        if not lib.close(got, want, 1e-9 * max(1.0, want)):
+            ctx.fail('sum-normalisation' if opts.get('is_abundance_sum') else 'max-normalisation', want, got, call=call)
+        ctx.outcome = [case['mass'], sorted(opts.items(), key=str), len(dist)]
+        return
     comp = case['comp']
     opts = case['opts']
     st, dist = lib.call(p.isotopic_distribution, copy.deepcopy(comp), **opts)
@@ -257,6 +290,10 @@ def check(case, ctx):
         if not lib.close(mean, avg, pos_tol + 1e-6 * max(1.0, avg)):
             ctx.fail('mean', avg, mean, call=call, deviation=mean - avg,
                      particles={k: comp[k] for k in ('e', 'p', 'n') if k in comp})
+        st4, lavg = lib.call(p.chem_mass, copy.deepcopy(comp), monoisotopic=False)
+        ctx.evals += 1
+        if st4 != 'ok' or not lib.close(mean, lavg, pos_tol + 1e-6 * max(1.0, avg)):
+            ctx.fail('mean-vs-library-average-mass', lavg, mean, call=call)
     if neutron_view and not opts.get('output_masses_for_neutron_offset') and integer and not pruning and r >= 3:
         # the neutron-offset view is the mass view binned by nominal mass
         o2 = {k: v for k, v in opts.items() if k != 'use_neutron_count'}
